@@ -38,6 +38,8 @@ pub const HARNESSES: &[(&str, fn())] = &[
     ("c09_routing_t5", c09_registry::c09_routing_t5),
     ("c12_bad_response_minimal", c09_registry::c12_bad_response_minimal),
     ("c12_bad_response_a", c09_registry::c12_bad_response_a),
+    ("c12_bad_response_a2", c09_registry::c12_bad_response_a2),
+    ("c12_bad_response_b2", c09_registry::c12_bad_response_b2),
     ("c12_bad_response_b", c09_registry::c12_bad_response_b),
     ("c13_registry_forgets_answered", c09_registry::c13_registry_forgets_answered),
     ("c13_registry_forgets_finished_stream", c09_registry::c13_registry_forgets_finished_stream),
